@@ -45,7 +45,7 @@ Tick(d)         == /\ Idle /\ now + d <= MaxT /\ now' = now + d /\ UNCHANGED sto
 DiskIds == {disk[i].id : i \in DOMAIN disk}
 MetaIds == {meta[i] : i \in DOMAIN meta}
 FreshId == IF ~UniqueIds THEN <<now, 0>>
-           ELSE LET used == {n \in 0..MaxIds : <<now, n>> \in (DiskIds \cup MetaIds)} IN
+           ELSE LET used == {n \in 0..MaxIds : <<now, n>> \in (DiskIds \cup MetaIds \cup {issued[i] : i \in DOMAIN issued})} IN   \* never an id issued before, even if retention has evicted it
                 <<now, CHOOSE n \in 0..MaxIds : n \notin used /\ \A m \in 0..MaxIds : (m < n => m \in used)>>
 
 DiskPut(d, id, st, content) ==      \* set/replace the directory entry of id
@@ -96,12 +96,19 @@ Restore(i) ==
             /\ last' = [op |-> "restore", i |-> i, ok |-> TRUE]
        ELSE UNCHANGED store /\ last' = [op |-> "restore", i |-> i, ok |-> FALSE]
 
+(* the process restarts: a new StateStore is opened on the same directory - empty state, empty listing, the files stay *)
+(* (a new store remembers only what is on disk: scenarios in which a checkpoint of the CURRENT millisecond has already been     *)
+(* evicted are not generated - after such a restart its id could legitimately come back, which no in-process store can avoid) *)
+Reopen == /\ Idle /\ disk # <<>> /\ store' = [k \in Keys |-> Absent] /\ meta' = <<>>
+          /\ \A i \in DOMAIN issued : issued[i][1] = now => issued[i] \in DiskIds
+          /\ UNCHANGED <<now, disk, snap, issued, wr>> /\ last' = [op |-> "reopen", ok |-> TRUE]
+
 Common == \/ \E k \in Keys, v \in Vals : Put(k, v) \/ Update(k, v) \/ (\E t \in Ttls : PutTtl(k, v, t))
           \/ \E k \in Keys : Delete(k)
           \/ \E d \in {1, 2} : Tick(d)
           \/ \E i \in 1..MaxIds : Restore(i)
 NextSteps  == nops' = nops + 1 /\ (Common \/ CkBegin \/ CkCreate \/ (\E f \in BOOLEAN : CkWrite(f)) \/ CkMeta \/ CkRetain \/ Crash)
-NextAtomic == nops' = nops + 1 /\ (Common \/ CheckpointAtomic)
+NextAtomic == nops' = nops + 1 /\ (Common \/ CheckpointAtomic \/ Reopen)
 
 -----------------------------------------------------------------------------------------
 (* C20 *)
